@@ -11,6 +11,13 @@ Three kinds of cases, all judged by the Lean model AsynqModel.Lib.Debug (mode `d
            traceback that reaches the caller is read frame by frame, format_asynq_stack() is called inside bodies and
            inside orphan tasks run after their creators finished, format_error() is applied to what arrives.  The
            exceptions of a chain derive from Exception or (case field "exc": "base") from BaseException only.
+* again  : (judged like glue, driver kind `again`) a chain whose result is asked for AGAIN after it reached the first
+           caller: the same task by value() / () / raise_if_error() / ErrorFuture(task.error()).value() / after a peek at error() / on
+           another thread, or through a new task put on top of the finished
+           one (yield / synchronous value(), no handler / bare re-raise / raise e), 1-8 consumers in any order; every
+           consumer must catch THAT exception with the caller's frame, one frame per task level crossed now and the
+           raising frames - nothing of what an earlier consumer saw (theorems C18_retrieval_resets,
+           C18_again_refines_partial).
 * repr   : every asynq object kind is driven into the lifecycle states of the state table and str/repr/dump are called;
            objects that hold a user value (scoped values, their override contexts, generator.Value, futures, items,
            tasks) additionally hold every value SHAPE (tuples of 0-3 elements, namedtuple, dict, %-string, ...) and
@@ -58,6 +65,11 @@ HEADLINE = [
     "AsynqModel.Debug.C18_glue_spec_holds_partial",
     "AsynqModel.Debug.C18_stackSafe_exact_small",
     "AsynqModel.Debug.C18_known_signature_exact",
+    # later retrievals of the error of a failed chain (second / third consumer of one task)
+    "AsynqModel.Debug.C18_retrieval_resets",
+    "AsynqModel.Debug.C18_again_refines_partial",
+    "AsynqModel.Debug.C18_again_observer_exact",
+    "AsynqModel.Debug.C18_again_spec_holds_partial",
 ]
 BY_CONSTRUCTION = [
     "AsynqModel.Debug.C18_filter_spec_holds",
@@ -84,14 +96,18 @@ RULE = ("filter: tracebacks over the pattern tables extracted from the current d
         "(none, bare re-raise, raise e, raise new, swallow) x own raise (helper depth 0-3) x orphan x bottom (nothing, "
         "ErrorFuture, or a context hook - pause() on suspension / resume() on continuation of the innermost task blocked "
         "on a batch item - raising through 0-3 helpers, every depth 1-4 (thorough 1-8)) x exception class (Exception; a "
-        "quarter of the random chains and the plain deep chains also BaseException-only); repr: a fixed list of scenarios "
+        "quarter of the random chains and the plain deep chains also BaseException-only); again: every list of 1-3 later "
+        "retrievals over (same task again, new task on top by yield, new task on top by synchronous call) x depth 1-3 x "
+        "own raise / ErrorFuture, every way of asking (value(), (), raise_if_error(), ErrorFuture(task.error()).value(), after format_error(task.error()), on another thread) x first retrieval x exception class, "
+        "every handler of the task on top, 1-8 consumers in a row, hook failures and returned values asked again, plus "
+        "250 (2500 thorough) random chains of depth 1-8 each followed by 1-6 random later retrievals; repr: a fixed list of scenarios "
         "per object kind that reaches every cell of the model's state table which public API calls can reach (incl. "
         "`almost finished` tasks seen from a DUMP_QUEUED_RESULTS write, futures asked for their repr from inside their own "
         "repr, format_error of non-exceptions with a traceback and of exceptions whose `_traceback` is garbage), each cell with str/repr/dump; scoped values, their "
         "override contexts, generator.Value, futures, batch items and task results additionally hold every value shape "
         "((), 1-, 2-, 3-tuple, nested tuple, namedtuple, dict, %-string, None, list) and must show that value. non-trivial = filter "
         "case with a complete and a partial run / chain where an exception crosses >= 2 task levels or an orphan "
-        "asks for its stack after a creator failed / repr case with >= 3 states; distinct by case hash")
+        "asks for its stack after a creator failed / an error asked for at least twice / repr case with >= 3 states; distinct by case hash")
 TRUSTED = [
     "hand-written Lean model AsynqModel.Lib.Debug, tied to the code by this differential run only",
     "Python harness checks/c18.py: ast extraction of the REPLACEMENTS tables and of _AsyncGenerator's attributes, "
@@ -127,6 +143,9 @@ ASSUMPTIONS = [
     "chains: one awaited child per level (shared failing tasks awaited by two parents are out of the statement); no "
     "await inside a handler / finally, no `raise .. from`, no tuple / list awaits, no ErrorFuture holding an exception "
     "that was already raised elsewhere (probed by hand: glue correctly; not modelled)",
+    "later retrievals: every later consumer asks the OUTERMOST task (the chain's top, or the last task put on top of it); "
+    "asking a task again after another task has consumed its error is the shared-failing-task situation above "
+    "(`_traceback` lives on the exception object, not on the task) and stays outside",
     "consecutive traceback entries of the same frame object count as one frame (`raise e` inside a handler)",
     "values held by futures / scoped values have a working repr of their own and scoped values do not hold themselves",
     "repr: the abstract state strings of the scenarios (which words a text must contain) are hand-written regression "
@@ -441,6 +460,75 @@ def gen_glue_cases(tier, rng):
     return cases
 
 
+DIRECT_STYLES = ["value", "call", "raise_if_error", "error_future", "peek", "thread"]
+FIRST_STYLES = ["value", "call", "peek"]
+VIA_HANDLERS = ["pass", "pass", "bare", "named"]
+
+
+def gen_retrievals(rng, n=None):
+    """later consumers of the chain's result: ["direct", how] = the same task asked again with value() / () /
+    raise_if_error(); ["via", await style, handler of the new task, how the caller asks the new task] = a new task
+    put on top of the finished one"""
+    n = n if n is not None else rng.choice([1, 1, 2, 2, 3, 4, 6])
+    res = []
+    for _ in range(n):
+        if rng.random() < 0.6:
+            res.append(["direct", rng.choice(DIRECT_STYLES)])
+        else:
+            res.append(["via", rng.choice(["yld", "sync", "sync"]), rng.choice(VIA_HANDLERS), rng.choice(["value", "call"])])
+    return res
+
+
+def gen_again_cases(tier, rng):
+    """chains whose result is asked for again after it reached the first caller (round 5)"""
+    cases = []
+    alpha = [["direct", "value"], ["via", "yld", "pass", "value"], ["via", "sync", "pass", "value"]]
+    # every list of 1-3 later retrievals x depth 1-3 (raise at the innermost level) x ErrorFuture at the bottom or not
+    for d in (1, 2, 3):
+        for b in (0, 1):
+            for n in (1, 2, 3):
+                for rs in itertools.product(alpha, repeat=n):
+                    if b == 1 and (d > 2 or n > 2):
+                        continue
+                    levels = [_level(pre=i % 2) for i in range(d)]
+                    if b == 0:
+                        levels[-1]["own"] = 0
+                    cases.append({"sub": "again", "bottom": b, "levels": levels, "again": [list(r) for r in rs]})
+    # how the consumers ask x handler of the task on top x first retrieval x exception class; many consumers (1-8)
+    for first in FIRST_STYLES:
+        for st in DIRECT_STYLES:
+            for exc in (None, "base"):
+                c = {"sub": "again", "bottom": 0, "levels": [_level(), _level(own=1)], "first": first,
+                     "again": [["direct", st], ["direct", st]]}
+                if exc:
+                    c["exc"] = exc
+                cases.append(c)
+        for aw in ("yld", "sync"):
+            for h in ("pass", "bare", "named"):
+                cases.append({"sub": "again", "bottom": 0, "levels": [_level(), _level(own=0)], "first": first,
+                              "again": [["direct", "value"], ["via", aw, h, "call" if first == "call" else "value"],
+                                        ["direct", "call"]]})
+    for n in range(1, 9):
+        cases.append({"sub": "again", "bottom": 0, "levels": [_level(), _level("sync"), _level(own=2)],
+                      "again": [["direct", DIRECT_STYLES[i % len(DIRECT_STYLES)]] for i in range(n)]})
+        cases.append({"sub": "again", "bottom": 0, "levels": [_level(own=0)],
+                      "again": [["via", "sync" if i % 2 else "yld", "pass", "value"] for i in range(n)]})
+    # the result of the chain is a value: later consumers get the value
+    cases.append({"sub": "again", "bottom": 0, "levels": [_level(), _level()],
+                  "again": [["direct", "value"], ["via", "sync", "pass", "value"], ["direct", "raise_if_error"]]})
+    # context hook failures asked again
+    for mode in ("pause", "resume"):
+        cases.append({"sub": "again", "bottom": ["hook", mode, 1], "levels": [_level(), _level()],
+                      "again": [["direct", "value"], ["via", "sync", "pass", "value"]]})
+    for _ in range(250 if tier == "quick" else 2500):
+        c = gen_glue_random(rng)
+        c["sub"] = "again"
+        c["again"] = gen_retrievals(rng)
+        c["first"] = rng.choice(FIRST_STYLES)
+        cases.append(c)
+    return cases
+
+
 REPR_KINDS = ["future", "constFuture", "errorFuture", "task", "userBatch", "userItem", "debugBatch", "debugItem",
               "scheduler", "scopedValue", "scopedOverride", "propOverride", "asyncGen", "genValue", "formatError",
               "dumpAll"]
@@ -464,6 +552,7 @@ def plan(tier, seed):
     for off in range(0, len(tbs), TB_PER_CASE):
         cases.append({"sub": "filter", "tbs": tbs[off:off + TB_PER_CASE]})
     cases += gen_glue_cases(tier, rng)
+    cases += gen_again_cases(tier, random.Random(seed * 1000003 + 1805))   # own stream: the older cases stay as they were
     return cases
 
 
@@ -481,14 +570,29 @@ def shrink(case):
             tb = tbs[0]
             for i in range(len(tb)):
                 yield {"sub": "filter", "tbs": [tb[:i] + tb[i + 1:]]}
-    elif sub == "glue":
+    elif sub in ("glue", "again"):
         levels = case["levels"]
 
-        def mk(bottom, ls, exc=case.get("exc")):
-            c = {"sub": "glue", "bottom": bottom, "levels": ls}
+        def mk(bottom, ls, exc=case.get("exc"), again=case.get("again"), first=case.get("first")):
+            c = {"sub": sub, "bottom": bottom, "levels": ls}
             if exc:
                 c["exc"] = exc
+            if sub == "again":
+                c["again"] = again
+                if first and first != "value":
+                    c["first"] = first
             return c
+        if sub == "again":
+            ag = case["again"]
+            for i in range(len(ag) - 1, -1, -1):
+                if len(ag) > 1:
+                    yield mk(case["bottom"], levels, again=ag[:i] + ag[i + 1:])
+            for i, r in enumerate(ag):
+                simple = ["direct", "value"] if r[0] == "direct" else ["via", r[1], "pass", "value"]
+                if r != simple:
+                    yield mk(case["bottom"], levels, again=ag[:i] + [simple] + ag[i + 1:])
+            if case.get("first", "value") != "value":
+                yield mk(case["bottom"], levels, first=None)
         for i in range(len(levels) - 1, -1, -1):
             if len(levels) > 1:
                 yield mk(case["bottom"], levels[:i] + levels[i + 1:])
@@ -534,8 +638,15 @@ def neighbours(case, rng):
     also when that failure is a recorded finding - so neighbours that can only re-find a recorded finding are left
     out (they would mask the disagreement that started the search)"""
     sub = case.get("sub")
-    if sub == "glue":
+    if sub in ("glue", "again"):
         own = _may_hit_open_stack_finding(case)
+
+        def like(c):
+            if sub == "again":
+                c["sub"] = "again"
+                c["again"] = [list(r) for r in case["again"]] if rng.random() < 0.5 else gen_retrievals(rng)
+                c["first"] = case.get("first", "value")
+            return c
         for _ in range(32):
             levels = [dict(x) for x in case["levels"]]
             i = rng.randrange(len(levels))
@@ -544,11 +655,11 @@ def neighbours(case, rng):
             if case.get("exc"):
                 c["exc"] = case["exc"]
             if own or not _may_hit_open_stack_finding(c):
-                yield c
+                yield like(c)
         for _ in range(16):
             c = gen_glue_random(rng)
             if own or not _may_hit_open_stack_finding(c):
-                yield c
+                yield like(c)
     elif sub == "filter":
         tables = _tables_for_plan()
         tbs = gen_filter_tbs("quick", rng, tables)
@@ -564,7 +675,11 @@ def signature(case, v):
     spec = v.get("spec", "ok")
     if spec == "ok":
         spec = "corr"
-    return "%s/%s" % (case.get("sub"), spec.replace("fail:", ""))
+    sub = case.get("sub")
+    clause = spec.replace("fail:", "")
+    if sub == "again" and not clause.startswith("retrieval-") and clause not in ("corr", "not-the-reference-events"):
+        sub = "glue"    # the chain itself is wrong, before any later retrieval: the same finding as in a glue case
+    return "%s/%s" % (sub, clause)
 
 
 # ---------------------------------------------------------------------------------------------------
@@ -768,6 +883,64 @@ def _glue_caller(ctx):
     return None
 
 
+def _glue_again(fut, style):
+    """a synchronous consumer of the (possibly already failed) future `fut`: what it catches is the observation"""
+    if style == "thread":
+        # a consumer on another thread (only used on computed futures: nothing is scheduled there)
+        import threading
+        box = []
+        t = threading.Thread(target=lambda: box.append(_glue_again(fut, "value")))
+        t.start()
+        t.join()
+        return box[0] if box else None
+    try:
+        if style == "call":
+            fut()
+        elif style == "raise_if_error":
+            # only used on computed futures (it does not compute); `cdef inline` in futures.pxd: not callable from
+            # Python in the compiled build - value() there
+            getattr(fut, "raise_if_error", fut.value)()
+        elif style == "error_future":
+            # ANOTHER library object holding the same exception object: ErrorFuture(task.error())
+            err = fut.error()
+            if err is None:
+                fut.value()
+            else:
+                from asynq import futures
+                futures.ErrorFuture(err).value()
+        elif style == "peek":
+            # a health check first: look at error() and print it, without raising; then ask
+            from asynq import debug as adebug
+            adebug.format_error(fut.error())
+            fut.value()
+        else:
+            fut.value()
+    except (Exception, GlueBaseErr) as e:
+        return e
+    return None
+
+
+def _outer_tmpl(ctx, lv, fut, aw, hstyle):
+    """body of a task put on top of the finished task `fut` by a later retrieval (`via`)"""
+    yield None
+    if hstyle == "pass":
+        if aw == "yld":
+            yield fut
+        else:
+            fut.value()
+    else:
+        try:
+            if aw == "yld":
+                yield fut
+            else:
+                fut.value()
+        except GLUE_ERRS as e:
+            if hstyle == "bare":
+                raise
+            raise e
+    return lv
+
+
 def _rename(fn, name):
     code = fn.__code__.replace(co_name=name, co_qualname=name)
     f = types.FunctionType(code, fn.__globals__, name)
@@ -782,7 +955,7 @@ def _frame_tok(filename, name):
     """token of a user frame, None for a frame outside this file (library boilerplate)"""
     if os.path.abspath(filename) != HERE:
         return None
-    if name == "_glue_caller":
+    if name in ("_glue_caller", "_glue_again"):
         return "(c)"
     m = _NAME_RE.match(name)
     if m:
@@ -819,6 +992,12 @@ class GlueCtx(object):
         k = ("L", lv)
         if k not in self._fns:
             self._fns[k] = self.asynq.asynq()(_rename(_level_tmpl, "L%d" % lv))
+        return self._fns[k]
+
+    def afn(self, lv):
+        k = ("A", lv)
+        if k not in self._fns:
+            self._fns[k] = self.asynq.asynq()(_rename(_outer_tmpl, "L%d" % lv))
         return self._fns[k]
 
     def ofn(self, lv):
@@ -907,14 +1086,20 @@ def run_glue(case):
 
     rule = extract_frame_rule(os.path.join(_build_dir(), "asynq", "async_task.py"))
     bsx = "(hook %s %d)" % ctx.hook if ctx.hook else ("1" if ctx.bottom else "0")
-    lines = ["(case debug %d glue %s %s (levels %s))" % (case["id"], bsx, rule, " ".join(lv_sx(L) for L in ctx.levels))]
+    again = case.get("again") if case.get("sub") == "again" else None
+    if again is None:
+        lines = ["(case debug %d glue %s %s (levels %s))" % (case["id"], bsx, rule, " ".join(lv_sx(L) for L in ctx.levels))]
+    else:
+        asx = " ".join("(direct)" if r[0] == "direct" else "(via %s)" % r[1] for r in again)
+        lines = ["(case debug %d again %s %s (levels %s) (again %s))" % (
+            case["id"], bsx, rule, " ".join(lv_sx(L) for L in ctx.levels), asx)]
     from asynq import scheduler as _sched
     _sched.reset()   # nothing left over from earlier cases of this worker (a failed suspension leaves its batch scheduled)
-    e = _glue_caller(ctx)
-    crossed = 0
-    if e is None:
-        ctx.events.append("(result ok)")
-    else:
+
+    def result_event(e):
+        """the event for what a synchronous consumer caught (None: it got the value); number of task frames crossed"""
+        if e is None:
+            return "(result ok)", 0
         tok = getattr(e, "tok", 999) if isinstance(e, ctx.E) else 999
         # raw: walk the traceback, one token per frame object
         raw = []
@@ -937,14 +1122,35 @@ def run_glue(case):
         except Exception:
             vis = ["(x)"]
         fmt = _format_error_frames(adebug, e)
-        crossed = sum(1 for t in raw if t.startswith("(t "))
-        ctx.events.append("(result err %d (raw %s) (vis %s) (fmt %s))" % (tok, " ".join(raw), " ".join(vis), " ".join(fmt)))
+        return ("(result err %d (raw %s) (vis %s) (fmt %s))" % (tok, " ".join(raw), " ".join(vis), " ".join(fmt)),
+                sum(1 for t in raw if t.startswith("(t ")))
+
+    cur = None
+    if again is None:
+        e = _glue_caller(ctx)
+    else:
+        # the outermost task as an object, so that later consumers can ask it again
+        cur = ctx.fn(0).asynq(ctx, 0)
+        e = _glue_again(cur, case.get("first", "value"))
+    ev, crossed = result_event(e)
+    ctx.events.append(ev)
     # orphans: run by the caller after the chain is finished, outermost first
     for o in ctx.stash:
         try:
             o.value()
         except Exception:
             ctx.events.append("(stack orphan 999 (999))")
+    # later retrievals of the same result: the same task asked again, or a new task put on top of it
+    for i, r in enumerate(again or []):
+        if r[0] == "via":
+            cur = ctx.afn(100 + i).asynq(ctx, 100 + i, cur, r[1], r[2])
+            e2 = _glue_again(cur, r[3] if r[3] != "raise_if_error" else "value")
+        else:
+            e2 = _glue_again(cur, r[1])
+        if e2 is not None and e is not None and e2 is not e and getattr(e2, "tok", None) == getattr(e, "tok", None):
+            ctx.events.append("(result err 998 (raw) (vis) (fmt))")    # a copy, not THAT exception object
+        else:
+            ctx.events.append(result_event(e2)[0])
     _sched.reset()
     lines += ctx.events
     lines.append("(end)")
@@ -955,12 +1161,23 @@ def run_glue(case):
     if any(L["own"] for L in lv):
         feats.append("glue:helpers")
     feats.append("glue:class=%s" % ("BaseException" if ctx.E is GlueBaseErr else "Exception"))
+    if again is not None:
+        feats = [f.replace("glue:", "again:chain-") for f in feats]
+        feats.append("again:retrievals=%d" % len(again))
+        feats.append("again:new-tasks-on-top=%d" % sum(1 for r in again if r[0] == "via"))
+        feats += sorted({"again:%s" % ("direct-" + r[1] if r[0] == "direct" else "via-%s-%s" % (r[1], r[2])) for r in again})
+        feats.append("again:first=%s" % case.get("first", "value"))
+        feats.append("again:outcome=%s" % ("error" if e is not None else "value"))
     failed_creator = e is not None or any(L["handler"][0] in ("swallow", "new") for L in lv)
     if any(L["orphan"] for L in lv):
         feats.append("glue:orphan-after-%s" % ("failure" if failed_creator else "success"))
     nontrivial = None
     if crossed >= 2 or (failed_creator and any(L["orphan"] for L in lv)) or (ctx.hook and e is not None):
         nontrivial = hashlib.sha1(json.dumps([case["bottom"], lv, case.get("exc")], sort_keys=True).encode()).hexdigest()[:16]
+    if again is not None:
+        # interesting: an error is asked for at least twice
+        nontrivial = None if e is None or not again else hashlib.sha1(json.dumps(
+            [case["bottom"], lv, case.get("exc"), again, case.get("first")], sort_keys=True).encode()).hexdigest()[:16]
     return {"lines": lines, "features": feats, "nontrivial": nontrivial}
 
 
@@ -2072,7 +2289,7 @@ def run_case(case):
     sub = case.get("sub")
     if sub == "filter":
         return run_filter(case)
-    if sub == "glue":
+    if sub in ("glue", "again"):
         return run_glue(case)
     if sub == "repr":
         return run_repr(case)
